@@ -15,6 +15,8 @@ import FordModel.Lemmas.Relurl
 import FordModel.Lemmas.Assets
 import FordModel.Lemmas.Footnotes
 import FordModel.Lemmas.Memo
+import FordModel.Lemmas.PageName
+import FordModel.Lemmas.GraphUrl
 import FordModel.Generated.C09
 namespace Ford.C09
 open Ford Ford.Path Ford.Nav Ford.Url Ford.StrLink Ford.ReadMore Ford.Relurl Ford.Assets Ford.Generated.C09
@@ -416,7 +418,7 @@ theorem page_file_link_resolves (p : Assets.PageNode) (hi : p.isIndex = true) (b
 theorem page_copy_index_only_witness :
     let p : Assets.PageNode := ⟨[['g', 'u', 'i', 'd', 'e']], ['t', 'u', 't'], [(['f', 'i', 'g', 's'], [[['p', '.', 'p', 'n', 'g']]])], []⟩
     resolve ([['o', 'u', 't']] ++ pageDirOf p) [['f', 'i', 'g', 's'], ['p', '.', 'p', 'n', 'g']] ∉
-      (pageWrites ⟨.indexOnly, .always⟩ p).map ([['o', 'u', 't']] ++ ·) := by
+      (pageWrites ⟨.indexOnly, .always, ⟨.withSuffix, .withSuffix, .withSuffix⟩⟩ p).map ([['o', 'u', 't']] ++ ·) := by
   decide
 
 /-! ## round 5: state that outlives one page / one text — the Markdown converter, a cache in front of `relurl` -/
@@ -505,5 +507,136 @@ example :
        ⟨"FortranSourceFile".toList, "sourcefile".toList, "a.f90".toList, true, false⟩]
       = some ⟨"type".toList, "t".toList, some "variable-x".toList⟩ := by
   decide +kernel
+
+/-! ## round 6: what a static page is called - by the links to it, by the writer, by the search index -/
+
+/-- Generic form, for any naming tables whose three places agree (`PageName.tablesOk`): the link that the `relurl`
+    filter leaves for `PageNode.url` of the page `<loc>/<stem>.md` on a page lying in **any** directory `dir` of the
+    output tree (front page, entity pages, list pages, static pages nested arbitrarily deep), in a tree at any root
+    `base`, resolves to a file that the `writeout` of that page creates - whatever the stem looks like. -/
+theorem page_link_sound (T : Assets.PageTables) (hT : PageName.tablesOk T.names = true)
+    (p : Assets.PageNode) (base dir : List Seg) (hb : Normal base) (hd : Normal dir) (hl : Normal p.loc) :
+    resolve (base ++ dir) (PageName.linkTo T.names base dir p.loc p.stem) ∈ (pageWrites T p).map (base ++ ·) := by
+  rw [PageName.linkTo_resolves T.names hT base dir p.loc p.stem hb hd hl]
+  exact List.mem_map.2 ⟨_, by simp [pageWrites], rfl⟩
+
+/-- Clause "resolves to a file that exists in the output directory ... from every page depth (... nested static
+    pages)" for the links FORD itself writes to static pages (side-bar tree and bread crumbs of `info_page.html`,
+    the navigation bar entry of `base.html`): over the namings regenerated by probing the real `PageNode` and
+    `PagetreePage` objects, for **every** page of the tree - any location, any stem, dots included (`release-1.2.md`) -
+    seen from every directory and under every root. -/
+theorem page_link_names_written_file (p : Assets.PageNode) (base dir : List Seg)
+    (hb : Normal base) (hd : Normal dir) (hl : Normal p.loc) :
+    resolve (base ++ dir) (PageName.linkTo pageTables.names base dir p.loc p.stem) ∈
+      (pageWrites pageTables p).map (base ++ ·) :=
+  page_link_sound pageTables (by decide) p base dir hb hd hl
+
+/-- Clause "is relative ... so the output can be moved": that link does not depend on where the tree lives. -/
+theorem page_link_relocatable (p : Assets.PageNode) (base base' dir : List Seg) :
+    PageName.linkTo pageTables.names base dir p.loc p.stem = PageName.linkTo pageTables.names base' dir p.loc p.stem := by
+  unfold PageName.linkTo
+  rw [relpath_prefix, relpath_prefix]
+
+/-- Clause "the search index": the `url` of the page's entry in `search_database.json` (`PagetreePage.loc`), which
+    `search.html` resolves against the output root, names the file written for the page. -/
+theorem page_search_url_names_written_file (p : Assets.PageNode) (base : List Seg)
+    (hb : Normal base) (hl : Normal p.loc) :
+    resolve base (PageName.searchPath pageTables.names p.loc p.stem) ∈ (pageWrites pageTables p).map (base ++ ·) := by
+  rw [PageName.searchPath_resolves pageTables.names (by decide) base p.loc p.stem hb hl]
+  exact List.mem_map.2 ⟨_, by simp [pageWrites], rfl⟩
+
+/-- Why no project without a dot in a page's file name can tell the namings apart: on every stem without a dot
+    `with_suffix(".html")` and `<stem>.html` are the same name. -/
+theorem page_namings_agree_on_plain_stems (n m : PageName.Naming) (stem : Seg) (h : '.' ∉ stem) :
+    n.name stem = m.name stem :=
+  PageName.name_plain n m stem h
+
+/-- Why the three places must agree: with the writer changed to `<stem>.html` and the links left at
+    `with_suffix(".html")`, the page `release-1.2.md` is written to `page/release-1.2.html` while the side bar of
+    `page/index.html` links `release-1.html`, which nothing writes. -/
+theorem page_name_mixed_witness :
+    let T : Assets.PageTables := ⟨.always, .always, ⟨.withSuffix, .appendHtml, .appendHtml⟩⟩
+    let p : Assets.PageNode := ⟨[], "release-1.2".toList, [], []⟩
+    PageName.tablesOk T.names = false ∧
+    PageName.linkTo T.names [['o']] [['p', 'a', 'g', 'e']] p.loc p.stem = ["release-1.html".toList] ∧
+    resolve ([['o']] ++ [['p', 'a', 'g', 'e']]) (PageName.linkTo T.names [['o']] [['p', 'a', 'g', 'e']] p.loc p.stem) ∉
+      (pageWrites T p).map ([['o']] ++ ·) := by
+  decide
+
+example : PageName.withSuffixHtml "release-1.2".toList = "release-1.html".toList := by decide
+example : PageName.withSuffixHtml "x..y".toList = "x..html".toList := by decide
+example : PageName.withSuffixHtml "a.".toList = "a..html".toList := by decide
+example : PageName.withSuffixHtml ".a".toList = ".a.html".toList := by decide
+example : PageName.linkTo pageTables.names [['o']] [['p', 'a', 'g', 'e'], ['s', 'u', 'b']] [['v', '1', '.', '0']] "a.b.c".toList
+    = [up, "v1.0".toList, "a.b.html".toList] := by decide
+
+/-! ## round 6: graph node URLs -/
+
+/-- Generic form, for any tables that pass `GraphUrl.tablesOk` (one step up, gates in place, every template that
+    prints a graph renders pages exactly one directory below the root): on a page of **any** such template, in any
+    directory `pd` directly below any root `base`, the URL of a node of an entity of this project whose `get_url()`
+    is the normal path `u` resolves to `base ++ u` - the file `get_url()` names (see `getUrl_points_at_owner_page`
+    and `entity_url_depth_one`). -/
+theorem graph_node_url_sound (T : GraphUrl.Tables) (hT : GraphUrl.tablesOk T = true)
+    (n : GraphUrl.Node) (hint : n.fromStr = false ∧ n.external = false)
+    (base : List Seg) (pd : Seg) (r : List Seg)
+    (hb : Normal base) (hpd : NormalSeg pd) (hu : ∀ u, n.url = some u → Normal u)
+    (h : GraphUrl.nodeUrl T n = some r) :
+    ∃ u, n.url = some u ∧ resolve (base ++ [pd]) r = base ++ u := by
+  obtain ⟨_, u, hurl, _, hr⟩ := GraphUrl.nodeUrl_some T n r h
+  have hp : T.parentDir = [up] := by
+    simp [GraphUrl.tablesOk] at hT; exact hT.1.1.1.1
+  refine ⟨u, hurl, ?_⟩
+  rcases hr with ⟨_, hk⟩ | ⟨hr, _⟩
+  · simp [hint.1, hint.2] at hk
+  · rw [hr, hp]
+    exact GraphUrl.resolve_up_from_depth_one base pd u hb hpd (hu u hurl)
+
+/-- Clause "every URL ... embedded SVG graphs ... resolves", over the regenerated tables (`graphTables`: prefix read
+    from `Documentation.__init__`, gates probed on the real `BaseNode`, host templates from the Jinja AST with the
+    depth of real page objects): every clickable node of an entity of the project, on every page that prints a graph. -/
+theorem graph_node_url_resolves (n : GraphUrl.Node) (hint : n.fromStr = false ∧ n.external = false)
+    (base : List Seg) (pd : Seg) (r : List Seg)
+    (hb : Normal base) (hpd : NormalSeg pd) (hu : ∀ u, n.url = some u → Normal u)
+    (h : GraphUrl.nodeUrl graphTables n = some r) :
+    ∃ u, n.url = some u ∧ resolve (base ++ [pd]) r = base ++ u :=
+  graph_node_url_sound graphTables (by decide) n hint base pd r hb hpd hu h
+
+/-- ... and only entities that are displayed get a clickable node: an entity whose page the `display` /
+    `hide_undoc` settings removed (`visible = False`), and a binding of such a type, have no URL in any graph. -/
+theorem graph_node_url_only_if_visible (n : GraphUrl.Node) (r : List Seg)
+    (h : GraphUrl.nodeUrl graphTables n = some r) :
+    n.visible = true ∧ (n.bound = true → n.parentVisible = true) := by
+  obtain ⟨hs, _⟩ := GraphUrl.nodeUrl_some graphTables n r h
+  have hv : graphTables.visibleGate = true := by decide
+  have hbg : graphTables.boundGate = true := by decide
+  simp [GraphUrl.shown, hv, hbg] at hs
+  refine ⟨hs.1, fun hb => ?_⟩
+  rcases hs.2 with h | h
+  · simp [hb] at h
+  · exact h
+
+/-- every template that prints a graph renders its pages exactly one directory below the root (so that the one
+    prefix `../` of the run is right for all of them); in particular `index.html`, `search.html` and the static
+    pages print none. -/
+theorem graph_hosts_depth_one (h : Str × GraphUrl.Depth) (hh : h ∈ graphTables.hosts) : h.2 = .one := by
+  have hall : graphTables.hosts.all (fun h => decide (h.2 = .one)) = true := by decide
+  simpa using List.all_eq_true.1 hall h hh
+
+/-- Why the depth matters: the same node URL on a page at the root (a graph printed on `index.html`) leaves the
+    output directory's tree of pages - it resolves to `/module/m.html` next to, not inside, `/out`. -/
+theorem graph_node_url_depth_zero_witness :
+    let n : GraphUrl.Node := ⟨false, false, some ["module".toList, "m.html".toList], true, false, true⟩
+    GraphUrl.nodeUrl graphTables n = some [up, "module".toList, "m.html".toList] ∧
+    resolve ["out".toList] [up, "module".toList, "m.html".toList] = ["module".toList, "m.html".toList] := by
+  decide
+
+example : GraphUrl.nodeUrl graphTables ⟨false, false, some ["proc".toList, "p.html".toList], false, false, true⟩ = none := by decide
+example : GraphUrl.nodeUrl graphTables ⟨false, false, some ["type".toList, "t.html#boundprocedure-b".toList], true, true, false⟩ = none := by
+  decide
+example : GraphUrl.nodeUrl graphTables ⟨true, false, some ["https:".toList, [], "x.org".toList], true, false, true⟩
+    = some ["https:".toList, [], "x.org".toList] := by decide
+example : resolve ["out".toList, "lists".toList] [up, "module".toList, "m.html".toList] = ["out".toList, "module".toList, "m.html".toList] := by
+  decide
 
 end Ford.C09
